@@ -208,6 +208,23 @@ def _run_group(args):
     return {"g": g, "lines": lines, "refused": refused, "error": None, "complete": len(lines) == total}
 
 
+def _run_probe(args):
+    """one must-refuse tuple: returns (first emitted line or None, how the process ended)"""
+    binary, g, i = args
+    p = subprocess.run([binary, str(g), str(i)], stdout=subprocess.PIPE, stderr=subprocess.PIPE,
+                       env=dict(os.environ, DORA_FLAGS="--gc-worker 1"))
+    out = p.stdout.decode("utf-8", "replace")
+    pos = out.find("\nC08BEGIN\n")
+    if pos < 0:
+        return None, "no C08BEGIN (exit %d)" % p.returncode
+    for l in out[pos + 10:].split("\n"):
+        if l.startswith("C08END"):
+            break
+        if l:
+            return l, "exit %d" % p.returncode
+    return None, "exit %d" % p.returncode
+
+
 def run(c, tier, scratch, repo, driver_binary, parsed, joined, llvm, mattr, pretty_ops, only=None):
     boots = os.path.join(repo, "pkgs", "boots")
     src = os.path.join(boots, "assembler", "arm64.dora")
@@ -286,6 +303,7 @@ def run(c, tier, scratch, repo, driver_binary, parsed, joined, llvm, mattr, pret
                 inner *= len(j["dims"][k])
         j["inner"] = inner
         j["block_of"] = []          # per executed tuple: index of its block of register combinations
+        j["probe"] = []             # (tuple index, tuple): refused by arm64.rs AND not assemblable by llvm-mc => must be refused
         for tp in itertools.product(*[j["dims"][k] for k in order]):
             t = [0] * len(order)
             for k, v in zip(order, tp):
@@ -309,6 +327,11 @@ def run(c, tier, scratch, repo, driver_binary, parsed, joined, llvm, mattr, pret
                 j["block_of"].append(idx // inner)
             else:
                 j["skip"].append(idx)
+                if r is not None and r[0] == "REFUSED" and r[1] == "ERR" and idx % inner == 0:
+                    omap = OPERAND_MAP.get(j["method"], ({}, ""))[0]
+                    if all((k not in omap or omap[k](v) is not None) and (ty != "Int32" or -(1 << 31) <= v < (1 << 31))
+                           for k, (v, ty) in enumerate(zip(t, j["dtypes"]))):
+                        j["probe"].append((idx, t))
             idx += 1
         total_tuples += len(j["exp"])
     jobs_run = [j for j in jobs if j["exp"]]
@@ -319,6 +342,29 @@ def run(c, tier, scratch, repo, driver_binary, parsed, joined, llvm, mattr, pret
         b[0] += len(j["exp"])
         b[1].append(j)
     groups = [b[1] for b in bins if b[1]]
+    # must-refuse probes: operand tuples that have no encoding (arm64.rs refuses them and llvm-mc cannot assemble the
+    # requested instruction).  The twin has to refuse them too (a Dora assert ends the process), one tuple per run;
+    # per method the tuples nearest to the encodable range are taken (the first register combination of each).
+    probe_limit = 6 if tier == "quick" else 24
+    probe_jobs = []
+    per_method_probe_jobs = {}
+    for j in jobs:
+        if not j.get("probe") or per_method_probe_jobs.get(j["method"], 0) >= 2:
+            continue
+        per_method_probe_jobs[j["method"]] = per_method_probe_jobs.get(j["method"], 0) + 1
+        chosen = sorted(j["probe"], key=lambda it: (sum(min(abs(v), 1 << 40) for v in it[1]), it[1]))[:probe_limit]
+        keep = set(i for i, _ in chosen)
+        n = 1
+        for d in j["dims"]:
+            n *= len(d)
+        pj = dict(j)
+        pj["id"] = len(jobs) + len(probe_jobs)
+        pj["skip"] = [i for i in range(n) if i not in keep]
+        pj["exp"] = []
+        pj["probe_tuples"] = [t for _, t in sorted(chosen)]
+        probe_jobs.append(pj)
+    first_probe_group = len(groups)
+    all_groups = groups + [[pj] for pj in probe_jobs]
 
     # ---- build the test binary
     pkg = os.path.join(scratch, "boots")
@@ -331,7 +377,7 @@ def run(c, tier, scratch, repo, driver_binary, parsed, joined, llvm, mattr, pret
     if not mm or not os.path.exists(os.path.join(pkg, "assembler", "arm64.dora")):
         raise vcommon.MachineryError("unexpected layout of the boots package")
     open(root_file, "w").write(text[:mm.start()] + "mod verif_driver_arm64;\n" + text[mm.start():])
-    open(os.path.join(pkg, "verif_driver_arm64.dora"), "w").write(gen_driver(jobs_run, groups, enums))
+    open(os.path.join(pkg, "verif_driver_arm64.dora"), "w").write(gen_driver(jobs_run + probe_jobs, all_groups, enums))
     t0 = time.time()
     bindir = vcommon.build_plain(need_boots=False)
     binary = os.path.join(scratch, "twin-tests-arm64")
@@ -354,6 +400,8 @@ def run(c, tier, scratch, repo, driver_binary, parsed, joined, llvm, mattr, pret
                 n += len(j["exp"])
             work.append((binary, g, n, ends, 6 if tier == "quick" else 40))
         results = pool.map(_run_group, work)
+        probe_work = [(binary, first_probe_group + k, i) for k, pj in enumerate(probe_jobs) for i in range(len(pj["probe_tuples"]))]
+        probe_results = pool.map(_run_probe, probe_work)
     t_run = time.time() - t0
 
     # ---- compare
@@ -418,6 +466,22 @@ def run(c, tier, scratch, repo, driver_binary, parsed, joined, llvm, mattr, pret
                 else:
                     add("c08:twin:%s:word" % j["method"], j, t, "%08x" % w, want, rustw,
                         "arm64.dora emits %08x, llvm-mc encodes the requested instruction as %08x (arm64.rs: %08x)" % (w, want, rustw))
+    probes = probe_refused = 0
+    for (binary_, g, i), (line, msg) in zip(probe_work, probe_results):
+        pj = probe_jobs[g - first_probe_group]
+        t = pj["probe_tuples"][i]
+        probes += 1
+        if line is None:
+            probe_refused += 1
+            continue
+        f = findings.setdefault("c08:twin:%s:encodes-unencodable-operand" % pj["method"], {"count": 0, "examples": []})
+        f["count"] += 1
+        f["examples"].append({"method": pj["method"], "ops": list(t), "operands": pretty_ops(pj["entry"], t, enums), "dora_twin": line,
+                              "llvm_word": "-", "rust_word": "-",
+                              "what": "arm64.dora emits bytes [%s] for an operand tuple that has no encoding (arm64.rs refuses it, "
+                                      "llvm-mc cannot assemble it): silently truncated instead of refused" % line})
+        f["examples"].sort(key=lambda x: (sum(min(abs(v), 1 << 40) for v in x["ops"]), x["ops"]))
+        del f["examples"][3:]
     for key, f in sorted(findings.items()):
         ex = f["examples"][0]
         c.violation(key, "arm64.dora %s(%s): %s  (%d cases)" % (
@@ -428,6 +492,7 @@ def run(c, tier, scratch, repo, driver_binary, parsed, joined, llvm, mattr, pret
         "not_compared": uncovered, "only_in_dora_not_checked": only_dora,
         "cases": cases, "equal_to_llvm": equal, "equivalent_encoding_accepted": equivalent, "distinct_nontrivial": nontrivial, "aborts": refusals, "not_executed_after_repeated_aborts": abandoned,
         "tuples_declared": total_tuples, "excluded_by_twin_contract": excluded,
+        "must_refuse_probes": probes, "must_refuse_probes_refused": probe_refused,
         "operand_unit_differences": {n: v[1] for n, v in sorted(OPERAND_MAP.items())}, "complete": complete, "groups": len(groups), "per_method_cases": per_method,
         "samples": samples, "time_compile_s": round(t_compile, 1), "time_run_s": round(t_run, 1),
         "rule": "same-named single-instruction methods; registers {R0,R30,REG_ZERO,REG_SP} (thorough: + R1,R15,R16), "
